@@ -1211,6 +1211,80 @@ def _ctor_args_nonzero(prog, fn, member_name):
     return True
 
 
+def _divisor_guaranteed_by_callers(prog, fn, den):
+    """The divisor is a parameter (or a field of a struct parameter) of a function with internal linkage:
+    True if every call site establishes that the corresponding actual value is non-zero, False if the
+    divisor is not parameter-derived, None if it is but the callers could not be matched."""
+    d = strip_all(den)
+    # through single-definition locals
+    for _ in range(3):
+        if d is not None and d.get("k") == "DeclRefExpr" and d.get("dk") == "Var":
+            init = None
+            for v in fn.walk():
+                if v.get("k") == "VarDecl" and v.get("d") == d.get("d") and v.get("c"):
+                    init = strip_all(v["c"][0])
+            if init is None:
+                break
+            d = init
+    field = None
+    if d is not None and d.get("k") == "MemberExpr" and d.get("c"):
+        field = d.get("n")
+        base = strip_all(d["c"][0])
+    else:
+        base = d
+    if base is None or base.get("k") != "DeclRefExpr" or base.get("dk") != "ParmVar":
+        return False
+    internal = "(anonymous namespace)" in (fn.q or "") or fn.raw.get("static") or fn.raw.get("internal")
+    if not internal:
+        return False
+    idx = [i for i, p_ in enumerate(fn.params) if p_["d"] == base["d"]]
+    if not idx:
+        return None
+    sites = 0
+    for g_ in prog.functions.values():
+        gg = None
+        for c in g_.walk():
+            if c.get("k") != "CallExpr" or c.get("fn") != fn.key or fn not in prog.call_targets(g_, c):
+                continue
+            sites += 1
+            a = call_args(c)
+            if idx[0] >= len(a):
+                return None
+            actual = strip_all(a[idx[0]])
+            if field is not None:
+                # a local struct initialised with a braced list: pick the element of that field
+                if actual is None or actual.get("k") != "DeclRefExpr":
+                    return None
+                init = None
+                for v in g_.walk():
+                    if v.get("k") == "VarDecl" and v.get("d") == actual.get("d") and v.get("c"):
+                        init = strip_all(v["c"][0])
+                        rtype = notpl((v.get("ct") or v.get("t") or "").replace("const ", "").strip())
+                if init is None or init.get("k") != "InitListExpr":
+                    return None
+                rec = [rc for q_, rc in prog.records.items() if notpl(q_).split("::")[-1] == rtype.split("::")[-1]]
+                if not rec:
+                    return None
+                names = [f_["n"] for f_ in rec[0]["fields"]]
+                if field not in names or names.index(field) >= len(init.get("c", [])):
+                    return None
+                actual = strip_all(init["c"][names.index(field)])
+                while actual is not None and actual.get("k") in ("ImplicitCastExpr", "CStyleCastExpr", "CXXStaticCastExpr") and actual.get("c"):
+                    actual = strip_all(actual["c"][0])
+            if gg is None:
+                gg = Guards(g_)
+            okc = False
+            for l, rel, rr in (gg.cmps(c) or []):
+                if same_expr(l, actual) and ((rel in ("!=", ">") and folded(rr) == 0) or (rel == ">=" and (folded(rr) or 0) >= 1)):
+                    okc = True
+            for atom, truth in (gg.truths(c) or []):
+                if truth and same_expr(atom, actual):
+                    okc = True
+            if not okc:
+                return None
+    return True if sites else None
+
+
 def rule_divisors(prog, fixture=False):
     r = RuleResult("R-C07-9", "every integer division or remainder by a non-constant value is dominated by a test "
                    "that the divisor is non-zero, or the divisor is non-zero by construction (constant constructor "
@@ -1283,6 +1357,14 @@ def rule_divisors(prog, fixture=False):
                                             s_ = fn.cfg.succ[bid][si]
                                             if pos and s_ in dom.get(pos[0], set()):
                                                 ok, why = True, "dominated by `index < sectors_.size()` (non-empty sector list)"
+            if not ok:
+                res = _divisor_guaranteed_by_callers(prog, fn, den)
+                if res is True:
+                    ok, why = True, "non-zero at every call site of this file-local helper"
+                elif res is None:
+                    r.undecided.append("%s: divisor `%s` comes from a parameter of a file-local helper; the callers' "
+                                       "guarantees could not be matched" % (fn.loc(n), show(den)))
+                    continue
             r.add(key, fn.loc(n), ok, why if ok else
                   "`%s`: the divisor can be zero (e.g. an image in which no sector could be decoded gives a geometry "
                   "with 0 sectors per track): integer division by zero ends the process with SIGFPE" % show(n)[:70])
